@@ -26,9 +26,10 @@ type duplex struct {
 	toServer, toClient     []byte
 	srvWaiting, cliWaiting bool
 	srvClosed, cliClosed   bool
-	cliDone                bool // the client goroutine has finished
+	cliDone                bool     // the client goroutine has finished
 	tap                    [][]byte // every raw Write of the server
 	rawSeen                []byte   // every raw byte the server read
+	dlArmed                bool     // the server left a deadline set on the connection
 }
 
 func newDuplex() *duplex {
@@ -91,9 +92,17 @@ func (s srvEnd) Close() error {
 
 func (s srvEnd) LocalAddr() net.Addr                { return addr("server") }
 func (s srvEnd) RemoteAddr() net.Addr               { return addr("client") }
-func (s srvEnd) SetDeadline(t time.Time) error      { return nil }
-func (s srvEnd) SetReadDeadline(t time.Time) error  { return nil }
-func (s srvEnd) SetWriteDeadline(t time.Time) error { return nil }
+func (s srvEnd) SetDeadline(t time.Time) error      { s.d.arm(t); return nil }
+func (s srvEnd) SetReadDeadline(t time.Time) error  { s.d.arm(t); return nil }
+func (s srvEnd) SetWriteDeadline(t time.Time) error { s.d.arm(t); return nil }
+
+// arm records whether a deadline is currently set: a deadline that is set around the handshake and
+// never cleared kills the session when it expires
+func (d *duplex) arm(t time.Time) {
+	d.mu.Lock()
+	d.dlArmed = !t.IsZero()
+	d.mu.Unlock()
+}
 
 func (c cliEnd) Read(p []byte) (int, error) {
 	d := c.d
@@ -342,6 +351,13 @@ func runTLS(c *Case) *Result {
 	r.Ev = s.log.snapshot()
 	r.Tap = tapVerdict(raw)
 	r.HS = hs
+	d.mu.Lock()
+	if d.dlArmed && !d.srvClosed {
+		// (crypto/tls itself sets a write deadline while closing; a deadline that is still armed on a
+		// connection that stays open will kill the session when it expires)
+		r.Tap += "+deadline-left-armed"
+	}
+	d.mu.Unlock()
 	cliEnd{d}.Close()
 	d.waitFor(hangTimeout(), func() bool { return d.srvClosed })
 	d.mu.Lock()
